@@ -269,7 +269,9 @@ func (this *badgerWAL) CreateSnapshot(idx uint64, confState *raftpb.ConfState, d
 }
 
 func (this *badgerWAL) DeleteGroup() error {
-	return this.reset(nil)
+	// The partition keeps this store and loads the group again when its node returns to the
+	// replica set: leave it as a fresh store (dummy entry at term 0), like NewBadgerWAL does.
+	return this.reset(make([]raftpb.Entry, 1))
 }
 
 func (this *badgerWAL) entryPrefix() []byte {
